@@ -82,11 +82,12 @@ func init() {
 		Jobs:      func(tier string, seed int64) []Job { return c01Jobs(tier) },
 		Budget:    map[string]time.Duration{"quick": 8 * time.Minute, "thorough": 60 * time.Minute},
 		TimeoutMs: map[string]int{"quick": 30000, "thorough": 120000},
-		Reach:     []string{"parsed"},
+		Reach:     []string{"parsed", "compared with the reference"},
 		Bounds: map[string]interface{}{"operator_kernels": "every integer infix/prefix operator through the real evaluator for ALL int64 operand pairs (registers on and off): wrap-around + - *, truncated / and sign-of-dividend %, by-zero and negative shift counts are errors, << by >= 64 is 0, >> is logical, & | ^ ~, six comparisons, range construction for lengths 0..6; float + - * / and negation for ALL float64 pairs and Integer/Float mixes (FP theory); && || short-circuit observed through printing",
 			"index_kernels": "X[i], X[l:r], X[l:] on a string, array and map of every length 0..10 (20 thorough) for ALL int64 i, l, r against the documented rule (negative from the end, out of range -> nil, bounds clamped, l>r -> error)",
+			"whole_programs": "~90 programs x registers on/off against the independent reference evaluator, free integer variables a, b, c symbolic in (-1000, 1000)",
 			"precedence":    "every ordered pair of 19 binary operators in a OP1 b OP2 c against the driver's own precedence table and left associativity; each operator against prefix -, !, index, call, dot, postfix ++ and parentheses"},
-		Assumptions: []string{"claimed in part: operator, index and precedence kernels of the reference semantics; whole-program agreement with an independent reference evaluator (layer W of the design) is not built"},
-		Outside:     []string{"whole programs (control flow, scoping, closures, recursion, error/catch) against a reference evaluator", "float % (math.Mod uninterpreted)", "programs larger than the kernels"},
+		Assumptions: []string{"the reference evaluator (harness/eval/refeval.go) fixes the documented semantics as read from README, tests/*.gr and eval_test.go; it declines (no verdict) outside that core"},
+		Outside:     []string{"programs beyond the ~90 of layer W (a fixed list, not a grammar enumeration)", "float % (math.Mod uninterpreted)", "free variables outside (-1000, 1000) in layer W"},
 	})
 }
